@@ -2,7 +2,7 @@
    Only statements here; each is closed by `exact` of a lemma from proofs/{Bloom,Pmt,Gcs}Lemmas.v.
    The hash functions (MurmurHash3, SipHash, SHA256d inner-node hash) are universally quantified. *)
 From BV Require Import lib.Ints gen.Params_gen model.Merkle model.Pmt model.Bloom model.Gcs
-  proofs.MerkleLemmas proofs.BloomLemmas proofs.PmtLemmas proofs.GcsLemmas.
+  proofs.MerkleLemmas proofs.BloomLemmas proofs.BloomRollingLemmas proofs.PmtLemmas proofs.GcsLemmas.
 Local Open Scope Z_scope.
 
 (* CBloomFilter: after any sequence of insert() calls on any filter (any size, any number of hash
@@ -11,6 +11,20 @@ Theorem C51_bloom_no_false_negative : forall (K : Type) (murmur : Z -> K -> Z) (
   In x keys -> bloom_contains K murmur (fold_left (bloom_insert K murmur) keys f) x = Some true.
 Proof. exact bloom_no_false_negative. Qed.
 Print Assumptions C51_bloom_no_false_negative.
+
+(* CRollingBloomFilter: on a filter whose fields are as the constructor leaves them (an even, non-zero
+   number of 64-bit words, generation 1..3, nEntriesThisGeneration <= nEntriesPerGeneration =
+   CeilDiv(nElements, 2)), after any sequence of insert() calls each of the last nElements inserted
+   keys (position d < nElements counted from the most recent) is contained - for every MurmurHash3. *)
+Theorem C51_rolling_last_nelements : forall (K : Type) (murmur : Z -> K -> Z) (nElements : Z) (f0 : rolling)
+  (keys : list K) (d : nat) (x : K),
+  (1 <= rb_per_gen f0 < 2 ^ 30 /\ 0 <= rb_this_gen f0 <= rb_per_gen f0 /\ 1 <= rb_gen f0 <= 3 /\
+   0 < Z.of_nat (length (rb_data f0)) < 2 ^ 32 /\ Z.even (Z.of_nat (length (rb_data f0))) = true) ->
+  rb_per_gen f0 = (nElements + 1) / 2 ->
+  nth_error (rev keys) d = Some x -> Z.of_nat d < nElements ->
+  rolling_contains K murmur (fold_left (rolling_insert K murmur) keys f0) x = Some true.
+Proof. exact rolling_last_nelements. Qed.
+Print Assumptions C51_rolling_last_nelements.
 
 (* CPartialMerkleTree: for every list of distinct txids (1 .. MAX_BLOCK_WEIGHT / MIN_TRANSACTION_WEIGHT of
    them) and every match vector of the same length, ExtractMatches on the tree built by the
@@ -28,6 +42,18 @@ Theorem C51_pmt_roundtrip : forall (D : Type) (deq : D -> D -> bool) (H : D -> D
     compute_merkle_root D deq H zero txids = Some (root, m).
 Proof. exact pmt_roundtrip. Qed.
 Print Assumptions C51_pmt_roundtrip.
+
+(* ... and for ANY tree (e.g. one received from a peer): whenever ExtractMatches succeeds, every
+   reported (txid, position) is connected to the returned root by a merkle branch whose length is the
+   tree height computed from nTransactions (so a peer cannot make a transaction appear in a block
+   whose header root it does not hash up to).  Failure cases (unconsumed hashes or flag bytes,
+   identical sibling hashes, overflowing counts) are in the model pmt_extract as in the code. *)
+Theorem C51_pmt_extract_sound : forall (D : Type) (deq : D -> D -> bool) (H : D -> D -> D) (zero : D) (t : pmt D) root ms,
+  pmt_extract D deq H zero t = X_ok D root ms ->
+  exists h, tree_height (pmt_ntx D t) = Some h /\
+    forall tx p, In (tx, p) ms -> exists path, length path = h /\ fold_path D H tx p path = root.
+Proof. exact pmt_extract_sound. Qed.
+Print Assumptions C51_pmt_extract_sound.
 
 (* BitStreamWriter / BitStreamReader: Write(x, n) appends the low n bits of x (most significant first)
    to the bits written so far; Read(n) on a stream that starts with those bits returns x mod 2^n and
@@ -73,17 +99,24 @@ Example C51_nonvacuous :
   (* bloom: 2-byte filter, 3 hash functions, toy hash: the inserted key is found, another one is not *)
   (let f := fold_left (bloom_insert Z (fun s k => s * 7 + k)) [5] {| bl_data := [0; 0]; bl_nhash := 3; bl_tweak := 1 |} in
    bloom_contains Z (fun s k => s * 7 + k) f 5 = Some true /\ bloom_contains Z (fun s k => s * 7 + k) f 6 = Some false) /\
-  (* partial merkle tree over the free hash: 3 txids, the last one matched *)
-  (exists t, pmt_build mtree MNode [MLeaf 1; MLeaf 2; MLeaf 3] [false; false; true] = Some t /\
-     pmt_extract mtree mtree_eqb MNode (MLeaf 0) t =
-       X_ok mtree (MNode (MNode (MLeaf 1) (MLeaf 2)) (MNode (MLeaf 3) (MLeaf 3))) [(MLeaf 3, 2)]) /\
+  (* partial merkle tree over the free hash: 3 distinct txids, the last one matched *)
+  (let t := {| pmt_ntx := 3; pmt_bits := [true; false; true; true];
+               pmt_hashes := [MNode (MLeaf 1) (MLeaf 2); MLeaf 3]; pmt_bad := false |} in
+   pmt_build mtree MNode [MLeaf 1; MLeaf 2; MLeaf 3] [false; false; true] = Some t /\
+   pmt_extract mtree mtree_eqb MNode (MLeaf 0) t =
+     X_ok mtree (MNode (MNode (MLeaf 1) (MLeaf 2)) (MNode (MLeaf 3) (MLeaf 3))) [(MLeaf 3, 2)]) /\
   NoDup [MLeaf 1; MLeaf 2; MLeaf 3] /\
-  (* Golomb-coded set with P = 2, M = 5 and a toy hash: elements match, the encoding is 4 bytes *)
-  (exists g, gcs_build Z (fun k => k * 2 ^ 61) 2 5 [1; 2; 3] = Some g /\ gcs_encoded g = [3; 210; 123; 240] /\
-     gcs_match Z (fun k => k * 2 ^ 61) 2 g 2 = Some true /\ gcs_match Z (fun k => k * 2 ^ 61) 2 g 7 = Some false).
+  (* Golomb-coded set with P = 2, M = 5 and a toy hash: the elements match, another value does not *)
+  (match gcs_build Z (fun k => k * 2 ^ 61) 2 5 [1; 2; 3] with
+   | Some g => gcs_encoded g = [3; 41; 0] /\ gcs_match Z (fun k => k * 2 ^ 61) 2 g 2 = Some true /\
+               gcs_match Z (fun k => k * 2 ^ 61) 2 g 7 = Some false
+   | None => False
+   end).
 Proof.
   split; [vm_compute; split; reflexivity|].
-  split; [eexists; split; vm_compute; reflexivity|].
-  split; [repeat constructor; cbn; intuition discriminate|].
-  eexists. split; [vm_compute; reflexivity|]. vm_compute. repeat split; reflexivity.
+  split; [vm_compute; split; reflexivity|].
+  split.
+  - constructor; [intros [E|[E|[]]]; discriminate|]. constructor; [intros [E|[]]; discriminate|].
+    constructor; [intros []|]. constructor.
+  - vm_compute. repeat split; reflexivity.
 Qed.
